@@ -263,6 +263,12 @@ class Interp:
             v = o.val
             if op == 'Deref':
                 outs.append(o)
+            elif op == 'Not' and (e.get('ty') or 'bool') != 'bool':
+                # bitwise complement of an integer
+                if v[0] == 'lit' and isinstance(v[1], int) and not isinstance(v[1], bool):
+                    outs.append(Out('val', ('lit', ~v[1]), o.st))
+                else:
+                    outs.append(Out('val', ('bitnot', v), o.st))
             elif op == 'Not':
                 outs.append(Out('val', neg_term(v), o.st))
             else:
